@@ -1320,6 +1320,7 @@ func (schema *Schema) visitXOFOperations(settings *schemaValidationSettings, val
 				discriminatorVal, okcheck := valuemap[pn]
 				if !okcheck {
 					return &SchemaError{
+						Value:                 value,
 						Schema:                schema,
 						SchemaField:           "discriminator",
 						Reason:                fmt.Sprintf("input does not contain the discriminator property %q", pn),
@@ -1334,6 +1335,7 @@ func (schema *Schema) visitXOFOperations(settings *schemaValidationSettings, val
 						Schema:                schema,
 						SchemaField:           "discriminator",
 						Reason:                fmt.Sprintf("value of discriminator property %q is not a string", pn),
+						reversePath:           []string{pn},
 						customizeMessageError: settings.customizeMessageError,
 					}, false
 				}
@@ -1344,6 +1346,7 @@ func (schema *Schema) visitXOFOperations(settings *schemaValidationSettings, val
 						Schema:                schema,
 						SchemaField:           "discriminator",
 						Reason:                fmt.Sprintf("discriminator property %q has invalid value", pn),
+						reversePath:           []string{pn},
 						customizeMessageError: settings.customizeMessageError,
 					}, false
 				}
